@@ -332,7 +332,8 @@ Definition resolve_conditional (g : tgraph) (t : Z) (policy : bp_policy) (draws 
   let ks := tg_children g t in
   if negb (tg_conditional g t) then Err 1 else
   match ks with
-  | [] => Err 5      (* children_tasks[0]: IndexError *)
+  | [] => if tg_complete g t then Err 5        (* children_tasks[0]: IndexError *)
+          else match policy with ALL => Ok ([], draws) | _ => Err 5 end
   | k0 :: krest =>
     if tg_complete g t then
       match pick_max_prob g ks with Some c => Ok ([c], draws) | None => Err 4 end
@@ -503,7 +504,7 @@ Definition tg_observe (gop : tgraph * tg_op) : val :=
       let '(g', r) := tg_cancel g t time in L [vres vzl r; vstate g']
   | ONotify t time draw =>
       let '(g', r) := notify_completion g t time draw in
-      L [vres (fun p => L [vzl (fst p); vzl (snd p)]) r; vstate g']
+      L [vres (fun p => L [vzl (fst p); vzl (snd p)]) r; vstate g'; vbool (notify_consumes_draw g t)]
   | OReleasable => vzl (tg_releasable g)
   | OSched o draws => vres (fun p => L [vzl (fst p); vnat (length (snd p))]) (tg_schedulable g o draws)
   | OReady t => vbool (is_ready_to_run (tg_terminal g t) (map (tg_complete g) (tg_parents g t)) (tg_state g t))
@@ -517,3 +518,8 @@ Definition wl_observe (x : list tgraph * sched_opts * list Z) : val :=
   let '(gs, o, draws) := x in
   vres (fun p => L [L (map (fun a => L [I (fst a); I (snd a)]) (fst p)); vnat (length (snd p))])
        (wl_schedulable gs o draws).
+
+(* constructor used by the harness to write a task in a given state *)
+Definition mk_ttask (s : task_state) (release deadline raw completion prob : Z) (term cond : bool)
+                    (estart : Z) (rts : list Z) : ttask :=
+  mkTT (mkTask s TS_VIRTUAL release (-1) completion raw (-1) (-1) deadline) prob term cond estart rts.
